@@ -349,9 +349,26 @@ def _ctx_json(c):
             'self_id': c['self_id'], 'now_ms': c['now_ms'], 'transform': c['transform']}
 
 
+def regression_cases():
+    """minimized cases that once disagreed (model vs implementation); run first on every check"""
+    c = {'ports': {'p1': (True, 0), 'p2': (True, -5), 'p3': (True, False), 'p4': (True, -1)},
+         'values': {'p1': 0, 'p2': -5, 'p3': False, 'p4': -1}, 'self_id': None, 'now_ms': 1000, 'transform': False}
+
+    def pv(i):
+        return ('pv', 'p%d' % i)
+    return [
+        (c, ('call', 'DIV', [pv(1), pv(2)])),                       # 0 / -5 is -0.0 (sign of a zero quotient)
+        (c, ('call', 'DIV', [pv(3), pv(4)])),                       # False / -1
+        (c, ('call', 'LUT', [('lit', '1', 1), ('lit', '2', 2), ('lit', '10', 10), ('lit', '2', 2), ('lit', '20', 20),
+                             ('lit', '0', 0), ('lit', '5', 5)])),   # equal abscissae: stable sort
+        (c, ('call', 'SGN', [('lit', '0.3', 0.3)])),
+        (c, ('call', 'SGN', [('lit', '-0.5', -0.5)])),
+    ]
+
+
 def gen_cases(ctx, n, table):
     g = Gen(ctx.rng, table)
-    cases = []
+    cases = regression_cases()
     for _ in range(n):
         c = g.context()
         t = g.tree(ctx.rng.choice([1, 2, 2, 3, 3, 4]))
